@@ -13,8 +13,9 @@ SUBS = [
     dict(name="read", fork=True, quick=dict(cases=1500, shards=4), thorough=dict(cases=25000, shards=4)),
     dict(name="write", fork=True, quick=dict(cases=1500, shards=4), thorough=dict(cases=25000, shards=4)),
     dict(name="duplex", fork=True, quick=dict(cases=1500, shards=3), thorough=dict(cases=25000, shards=3)),
+    dict(name="soak", fork=True, quick=dict(cases=25, shards=2), thorough=dict(cases=250, shards=2)),
     dict(name="connect", fork=True, quick=dict(cases=1500, shards=3), thorough=dict(cases=25000, shards=3)),
-    dict(name="accept", fork=True, quick=dict(cases=1500, shards=2), thorough=dict(cases=25000, shards=2)),
+    dict(name="accept", fork=True, quick=dict(cases=1500, shards=1), thorough=dict(cases=25000, shards=1)),
 ]
 WRAPS = ["poll", "recv", "send", "connect", "accept", "getsockopt", "setsockopt", "socket", "close", "bind", "fcntl"]
 
